@@ -511,6 +511,21 @@ Definition uv_spawn (s : spec) (wo : list wans) : sres * list wans :=
   end.
 
 (* ------------------------------------------------------------------ *)
+(* uv_kill / uv_process_kill (process.c:1119-1136)                       *)
+(* ------------------------------------------------------------------ *)
+Inductive kans :=
+| KOk                  (* kill(2) returned 0 *)
+| KErr (errno : Z).    (* -1 with this errno *)
+
+(* the kill(2) call made (pid and signal exactly as given: positive pid, 0,
+   or a negative one naming a process group) and the value returned *)
+Definition uv_kill (pid sig : Z) (a : kans) : (Z * Z) * Z :=
+  ((pid, sig), match a with KOk => 0 | KErr e => - e end).
+
+Definition uv_process_kill (process_pid sig : Z) (a : kans) : (Z * Z) * Z :=
+  uv_kill process_pid sig a.
+
+(* ------------------------------------------------------------------ *)
 (* (c) uv__wait_children and the loop-level script                       *)
 (* ------------------------------------------------------------------ *)
 Record proc := mkP { p_h : nat; p_pid : nat; p_cb : bool }.
